@@ -23,7 +23,7 @@ npolls == Cardinality({k \in 1..Len(hist) : hist[k].e = "call" /\ hist[k].fn = "
 Next ==
   \/ New(1) \/ (life[1] = "run" /\ now = 0 /\ New(2))     \* canonical set-up order (symmetry)
   \/ \E o \in StartOpts : life[1] = "ns" /\ Start(1, o)
-  \/ \E o \in StartOpts : life[2] = "ns" /\ ~IsFork(o) /\ Start(2, o)
+  \/ \E o \in StartOpts : life[2] = "ns" /\ ~IsFork(o) /\ (MaxSrc >= 3 \/ o.rerr = 0) /\ Start(2, o)   \* (quick tier: the second child has no stderr pipe)
   \/ npolls < MaxPolls /\ \E s \in Srcs, t \in Timeouts \cup {INF} : Poll(s, t)
   \/ \E h \in {1, 2}, t \in {0, DEADLINE} : life[h] = "run" /\ Wait(h, t)
   \/ \E h \in {1, 2} : life[h] = "run" /\ pend[h].o /\ Close(h, S_OUT)
